@@ -6,7 +6,7 @@ from vlib import meshgen as mg
 from props import shared
 
 PID = "C01"
-LEAN_MODULES = ["BemppVerif.Props.C01", "BemppVerif.Gen.AsmMatch", "BemppVerif.Lemmas.KernelCalculus"]
+LEAN_MODULES = ["BemppVerif.Props.C01", "BemppVerif.Props.C01Pairs", "BemppVerif.Gen.AsmMatch", "BemppVerif.Lemmas.KernelCalculus"]
 N = "BemppVerif.C01."
 THEOREMS = []
 PARTIAL = {
@@ -14,8 +14,6 @@ PARTIAL = {
     "them are classical analysis (not formalised): the theorems show that the four assembled matrices are the Galerkin sums "
     "of the local quadrature formulas with kernels G, dG/dn_y, dG/dn_x and curl.curl x G; the residual bound 1e-6 is checked "
     "by the numerical oracle only",
-    N + "one_rule_per_pair": "that the singular pair list holds exactly one pair per adjacent element pair is taken from "
-    "C11's adjacency theorems (edge/vertex_adjacency_sound/complete/no_duplicates) as a hypothesis here",
 }
 TRUSTED = [
     "Tie B: assembler tracing (vlib/asmtrace.py, props/asm_gen.py) and kernel tracing (props/kernels_gen.py)",
@@ -32,7 +30,7 @@ RULE = ("correspondence: singular index/offset vectors of the real rule interfac
         "vertex-adjacent pairs.  oracle: see props/c01_oracle.py (non-convex / genus-1 / multi-component meshes, a != 0)")
 LEVEL_TEXT = ("Lean 4 theorems for ALL grids, spaces, sizes and orders: the dense assembler (regular launches per colour + "
               "scattered singular part) equals the Galerkin double sum of the local quadrature formulas "
-              "(dense_is_galerkin_sum); offsets of the singular bookkeeping address exactly the remapped rule blocks; remaps "
+              "(dense_is_galerkin_sum); every ordered pair of supported elements gets exactly one rule - coincident, edge-adjacent, vertex-adjacent or regular - (pairs_cover_adjacent_exactly_once, from C11's adjacency theorems); offsets of the singular bookkeeping address exactly the remapped rule blocks; remaps "
               "put the shared edge/vertex on the reference edge/vertex; the hypersingular local formulas equal curl.curl times "
               "the single-layer ones; the traced Laplace kernels equal G, dG/dn_y, dG/dn_x (with HasDerivAt proofs). The "
               "model is tied to the source by 140 generated theorems 'model = trace of the real assembler'.")
@@ -45,7 +43,8 @@ def generate(ctx):
     info = dict(kernels=shared.gen_kernels()[0], asm=shared.gen_asm()[0], sing=shared.gen_sing(),
                 c12=shared.gen_c12_tables())
     THEOREMS[:] = ([N + t for t in ("dense_is_galerkin_sum", "one_rule_per_pair", "sing_pairs_in_support",
-                                    "offsets_select_remap", "remap_edge_physical", "remap_vertex_physical")]
+                                    "offsets_select_remap", "remap_edge_physical", "remap_vertex_physical",
+                                    "pairs_cover_adjacent_exactly_once")]
                    + [shared.SPEC + t for t in ("dense_refines_spec", "denseRegular_refines", "singular_refines",
                                                 "offset_table_inverts_order", "edge_block", "vertex_block", "coincident_block")]
                    + shared.asm_theorems("regular_matches", "singular_matches", "identity_matches", "hyp_regular", "hyp_singular")
